@@ -12,6 +12,11 @@ import itertools
 from .sir import AnalysisBroken
 
 
+class IndexOutside(AnalysisBroken):
+    """the interpreted code indexes a modelled array outside its shape: a defect of the code under
+    analysis (out-of-bounds access), reported as a violation by rules running on concrete shapes"""
+
+
 class ShapeMismatch(AnalysisBroken):
     """the interpreted code combines arrays of different shapes (xtensor would broadcast or throw):
     rules that know the expected shapes report it as a violation of the code, not of the analysis"""
@@ -46,7 +51,7 @@ class NDArr:
     def check(self, idx):
         if len(idx) != len(self.shape) or any((not isinstance(i, int)) or i < 0 or i >= n
                                               for i, n in zip(idx, self.shape)):
-            raise AnalysisBroken("ndsym: index %r outside %s of shape %r" % (idx, self.name, self.shape))
+            raise IndexOutside("ndsym: index %r outside %s of shape %r" % (idx, self.name, self.shape))
 
     def get(self, idx):
         idx = tuple(idx)
@@ -90,7 +95,7 @@ class NDView:
         idx = tuple(idx)
         if len(idx) != len(self.shape) or any((not isinstance(i, int)) or i < 0 or i >= n
                                               for i, n in zip(idx, self.shape)):
-            raise AnalysisBroken("ndsym: index %r outside %s of shape %r" % (idx, self.name, self.shape))
+            raise IndexOutside("ndsym: index %r outside %s of shape %r" % (idx, self.name, self.shape))
 
     def indices(self):
         return itertools.product(*[range(n) for n in self.shape])
